@@ -71,6 +71,9 @@ type WorldSpec struct {
 	HashNoParams bool       `json:"hash_no_params,omitempty"`
 	ExtraCerts   int        `json:"extra_certs,omitempty"`
 	NameVariant  bool       `json:"name_variant,omitempty"`
+	ExtraFirst   bool       `json:"extra_first,omitempty"` // additional embedded certificates placed before the signer's certificate
+	EmbedCSCA    bool       `json:"embed_csca,omitempty"`  // the CSCA certificate is embedded as well
+	HashOrder    int        `json:"hash_order,omitempty"`  // order of the data group hash list: 0 ascending, 1 descending, 2 seeded shuffle
 	Untrusted    bool       `json:"untrusted,omitempty"`      // CSCA not in the terminal's trust store
 	DecoyAnchors int        `json:"decoys,omitempty"`         // other countries' / same-SKI anchors in the store
 	SameSKIDecoy bool       `json:"same_ski_decoy,omitempty"` // same-country anchor with the same key identifier but another key, listed first
@@ -183,6 +186,10 @@ func Build(spec WorldSpec) *World {
 	// ---- issuer
 	w.CSCAKey = spec.CSCA.make(rng)
 	w.DSKey = spec.DS.make(rng)
+	for i := 0; i < 16 && w.DSKey.RSA != nil && w.CSCAKey.RSA != nil && w.DSKey.RSA.N.Cmp(w.CSCAKey.RSA.N) == 0; i++ {
+		// the RSA keys come from a small embedded pool: a document signer never shares the CSCA's key
+		w.DSKey = spec.DS.make(rng)
+	}
 	cscaName := pki.CountryName(w.Alpha2, "Sim Gov", "CSCA "+w.Alpha2)
 	dsName := pki.CountryName(w.Alpha2, "Sim Gov", "DS "+w.Alpha2)
 	cscaSKI := pki.SKIOf(w.CSCAKey)
@@ -365,8 +372,24 @@ func Build(spec WorldSpec) *World {
 			w.DGOrder = append(w.DGOrder, n)
 		}
 	}
+	switch spec.HashOrder {
+	case 1:
+		for i, j := 0, len(w.DGOrder)-1; i < j; i, j = i+1, j-1 {
+			w.DGOrder[i], w.DGOrder[j] = w.DGOrder[j], w.DGOrder[i]
+		}
+	case 2:
+		hr := core.NewRng(core.SubSeed(spec.Seed, "hash-order"))
+		for i := len(w.DGOrder) - 1; i > 0; i-- {
+			j := hr.Intn(i + 1)
+			w.DGOrder[i], w.DGOrder[j] = w.DGOrder[j], w.DGOrder[i]
+		}
+	}
 	lso := pki.LDSSecurityObject(spec.LDSVersion, spec.DGHash, w.DGHashes, w.DGOrder, "0108", "040000", spec.HashNoParams)
+	if spec.EmbedCSCA {
+		w.Extra = append(w.Extra, w.CSCACert)
+	}
 	sd := pki.SignedDataSpec{
+		ExtraFirst: spec.ExtraFirst,
 		EContentType: pki.OidLdsSecurityObj, EContent: lso, DigestAlg: spec.DSScheme.Hash, Scheme: spec.DSScheme.scheme(),
 		Signer: w.DSKey, SignerCert: w.DSCert, ExtraCerts: w.Extra, SIDForm: spec.SIDForm, SigningTime: signingTime(spec, w.SignTime),
 		Indefinite: spec.Indefinite, HashNoParams: spec.HashNoParams,
